@@ -103,6 +103,15 @@ impl<F: FixedChannelRegion> FixedChannelPlan<F> {
 }
 
 pub(crate) trait FixedChannelRegion: ChannelRegion {
+    /// Data rate mandated for join requests on the 500 kHz channels 64..=71: the region's
+    /// 500 kHz uplink rate (DR4 in US915, DR6 in AU915).
+    fn join_datarate_500khz() -> DR {
+        let index = Self::datarates()
+            .iter()
+            .position(|d| matches!(d, Some(d) if d.bandwidth == Bandwidth::_500KHz))
+            .unwrap_or(4);
+        DR::from(index as u8)
+    }
     fn uplink_channels() -> &'static [u32; 72];
     fn downlink_channels() -> &'static [u32; 8];
     fn get_rx_datarate(tx_dr: DR, rx1_dr_offset: u8, window: &Window) -> DR;
@@ -206,7 +215,7 @@ impl<F: FixedChannelRegion> RegionHandler for FixedChannelPlan<F> {
                 let dr = if channel < 64 {
                     DR::_0
                 } else {
-                    DR::_4
+                    F::join_datarate_500khz()
                 };
                 (dr, channel)
             }
@@ -220,7 +229,7 @@ impl<F: FixedChannelRegion> RegionHandler for FixedChannelPlan<F> {
                     let dr = if channel < 64 {
                         DR::_0
                     } else {
-                        DR::_4
+                        F::join_datarate_500khz()
                     };
                     (dr, channel)
                 // Alternatively, we will ask JoinChannel logic to determine a channel from the
